@@ -135,7 +135,7 @@ fn find_slice_files(paths: &[String], are_source_files: bool, diagnostics: &mut 
             continue;
         }
 
-        slice_paths.extend(find_slice_files_in_path(path_buf, diagnostics));
+        slice_paths.extend(find_slice_files_in_path(path_buf, &mut Vec::new(), diagnostics));
     }
 
     slice_paths
@@ -156,11 +156,28 @@ fn find_slice_files(paths: &[String], are_source_files: bool, diagnostics: &mut 
         .collect()
 }
 
-fn find_slice_files_in_path(path: PathBuf, diagnostics: &mut Diagnostics) -> Vec<PathBuf> {
+/// Returns the paths of all the Slice files that can be found at, or beneath the provided path.
+/// `ancestors` holds the (canonicalized) paths of the directories we're currently searching through.
+fn find_slice_files_in_path(
+    path: PathBuf,
+    ancestors: &mut Vec<PathBuf>,
+    diagnostics: &mut Diagnostics,
+) -> Vec<PathBuf> {
     let mut paths = Vec::new();
     if path.is_dir() {
-        // Recurse into the directory.
-        match find_slice_files_in_directory(&path, diagnostics) {
+        // Recurse into the directory, unless it's a symbolic link that leads back to a directory we're already in the
+        // middle of searching. Following such a link would find nothing new, and take (practically) forever, since the
+        // operating system only stops us after dozens of round trips, and every further link multiplies them.
+        let result = path.canonicalize().and_then(|canonicalized_path| {
+            if ancestors.contains(&canonicalized_path) {
+                return Ok(Vec::new());
+            }
+            ancestors.push(canonicalized_path);
+            let child_paths = find_slice_files_in_directory(&path, ancestors, diagnostics);
+            ancestors.pop();
+            child_paths
+        });
+        match result {
             Ok(child_paths) => paths.extend(child_paths),
             Err(error) => Diagnostic::new(Error::IO {
                 action: "read",
@@ -178,14 +195,18 @@ fn find_slice_files_in_path(path: PathBuf, diagnostics: &mut Diagnostics) -> Vec
     paths
 }
 
-fn find_slice_files_in_directory(path: &Path, diagnostics: &mut Diagnostics) -> io::Result<Vec<PathBuf>> {
+fn find_slice_files_in_directory(
+    path: &Path,
+    ancestors: &mut Vec<PathBuf>,
+    diagnostics: &mut Diagnostics,
+) -> io::Result<Vec<PathBuf>> {
     let mut paths = Vec::new();
     let dir = path.read_dir()?;
 
     // Iterate though the directory and recurse into any subdirectories.
     for child in dir {
         match child {
-            Ok(child) => paths.extend(find_slice_files_in_path(child.path(), diagnostics)),
+            Ok(child) => paths.extend(find_slice_files_in_path(child.path(), ancestors, diagnostics)),
             Err(error) => {
                 // If we cannot read the directory entry, report an error and continue.
                 Diagnostic::new(Error::IO {
